@@ -33,6 +33,7 @@ fn main() {
 		"C05" => checks::c05::run(&args),
 		"C09" => checks::c09::run(&args),
 		"C10" => checks::c10::run(&args),
+		"C12" => checks::c12::run(&args),
 		p => cli::die(&format!("property {} is not served by mc-world", p)),
 	};
 	std::process::exit(code);
